@@ -454,6 +454,30 @@ theorem C10_ring_of (h : Heap) (hi : Inv h) (v : Int) (vs : List Int) :
       (r :: l).map (of h (v :: vs)).1.val = v :: vs ∧ Inv (of h (v :: vs)).1 :=
   of_cyc h hi v vs
 
+/-- **Observations are relative to the current cycle**: for an element `r` whose cycle is `r :: l`,
+`Each` visits the values of `r :: l` in order (the first `k+1` if stopped), `Len` is `|l| + 1` (so
+neither runs out of fuel), `At n` is the element at offset `n` along the cycle and `At (-n)` the one
+at offset `n` along the reversed cycle, both nil exactly when `n ≥ Len` (the code's test; the
+documentation says "greater than"), and `Peek` reports the value found there. -/
+theorem C10_ring_observations (h : Heap) (hi : Inv h) (r : Nat) (l : List Nat) (hc : Cyc h (r :: l)) :
+    each h (some r) none = .ok ((r :: l).map h.val) ∧
+    (∀ k, each h (some r) (some k) = .ok (((r :: l).take (k + 1)).map h.val)) ∧
+    len h (some r) = .ok (l.length + 1) ∧
+    (∀ n : Nat, at_ h (some r) n = (if n ≤ l.length then (r :: l)[n]? else none) ∧
+      at_ h (some r) (-(n : Int)) = (if n ≤ l.length then (r :: l.reverse)[n]? else none)) ∧
+    (∀ n : Nat, n ≤ l.length → peek h (some r) n = (((r :: l).map h.val).getD n 0, true)) ∧
+    (∀ n : Nat, l.length < n → peek h (some r) n = (0, false) ∧ peek h (some r) (-(n : Int)) = (0, false)) := by
+  refine ⟨by simp [each, scan_cyc h r l hc none], fun k => by simp [each, scan_cyc h r l hc (some k)],
+    by simp [len, scan_cyc h r l hc none], at_cyc h hi r l hc, ?_, ?_⟩
+  · intro n hn
+    have hlt : n < (r :: l).length := by simp; omega
+    simp only [peek, (at_cyc h hi r l hc n).1, hn, if_true, List.getElem?_eq_getElem hlt]
+    rw [List.getD_eq_getElem?_getD, List.getElem?_map, List.getElem?_eq_getElem hlt]
+    simp
+  · intro n hn
+    have : ¬ n ≤ l.length := by omega
+    simp [peek, (at_cyc h hi r l hc n).1, (at_cyc h hi r l hc n).2, this]
+
 /-- non-vacuity of `Cyc`/`Inv`: `Of 1 2 3` on the empty heap is the cycle of cells `[0, 2, 1]` carrying
 `[1, 2, 3]` (the loop of `New` inserts each fresh cell directly after the first one) -/
 example : Cyc (of {} [1, 2, 3]).1 [0, 2, 1] ∧ [0, 2, 1].map (of {} [1, 2, 3]).1.val = [1, 2, 3] ∧
